@@ -22,18 +22,25 @@ CLAIMED = {
         "(membership iff + strictly increasing), incl. the None conventions of the wrappers and the k-way union for any "
         "number of arrays. Correspondence: impl (kernels rebuilt from the current .pyx) vs model on all pairs of subsets "
         "of a universe containing 0 and 2^32-1 and on random overlap patterns; oracle = Python set algebra on the real code.",
-        "Trusted: Lean kernel; the hand-written kernel model is tied to the .pyx only by correspondence on generated inputs "
-        "(exhaustive up to 6/8 elements); uint32 value range and C int pointer width are outside the model.",
-        "Lean 4 proof (loop refinement by fun_induction + set algebra on sorted lists) + exhaustive small-scope correspondence",
+        "The three two-array kernels are REGENERATED from set_operations.pyx on every run (tools/translate_pyx.py: checked reads "
+        "and writes into the allocated buffer, loops as recursive functions whose termination Lean checks) and proved equal to "
+        "the hand-written models for all operands (KernGenBridge.lean), so generated_*_exact are theorems about what the source "
+        "says now. Trusted: Lean kernel; the translator (Cython subset -> Lean; C ints in N with checked subtraction); the k-way "
+        "kernel model is hand-written (index loop = list merge is a theorem) and tied by correspondence; uint32 range and C int "
+        "pointer width are outside the model.",
+        "Lean 4 proof (translator-regenerated kernels = hand models; loop refinement by fun_induction + set algebra on sorted lists) + exhaustive small-scope correspondence of real, hand-written and regenerated kernels",
         "DESIGN.md §5 C08"),
     "C09": (
         "Lean 4 theorems for ALL arrays (no sortedness): every checked read/write of the kernel models succeeds and the "
         "written prefix fits the allocation (min(len,len), len+len, len(left)). The model's Err is tied to the code by a "
         "bounds-checked twin built mechanically from the current .pyx (IndexError <-> Err on every enumerated input) and, in "
         "the thorough tier, by an AddressSanitizer build of the unmodified .pyx.",
-        "Trusted: Lean kernel; Cython/gcc lowering of index expressions; the twin differs only in boundscheck(True). "
+        "generated_kernels_in_bounds: the same for the kernels REGENERATED from the current .pyx (every source-level a[i] a "
+        "checked read, every v[i] = e a checked write into a buffer of exactly the allocated size with unspecified initial "
+        "content, every integer subtraction checked against going below zero). Trusted: Lean kernel; tools/translate_pyx.py; "
+        "Cython/gcc lowering of index expressions; the twin differs only in boundscheck(True). "
         "Not covered: arrays of >= 2^31 elements (C int pointers).",
-        "Lean 4 proof (loop refinement with checked accesses) + bounds-checked twin / ASan correspondence",
+        "Lean 4 proof (checked accesses of translator-regenerated kernels; loop refinement) + bounds-checked twin / ASan correspondence",
         "DESIGN.md §5 C09"),
     "C10": (
         "Lean 4 theorem: for every input the writer accepts, load(save(e, c)) = (e, c, uint32) — derived from C11a (writer "
@@ -50,8 +57,12 @@ CLAIMED = {
         "length for unbounded totals; (b) any layout with legal word sizes (1/2/4/8 for both) loads to its data. Tie: impl "
         "bytes == Lean bytes == an independent Python encoder; impl loader on independently encoded bytes of every legal "
         "width; size field at 2^30/2^32 row ids via duck-typed arrays.",
-        "Trusted: Lean kernel; translator for the width tables/magic (regenerated each run); the docstring is the spec.",
-        "Lean 4 proof (Layout relation, both directions) + byte-level correspondence against two independent codecs",
+        "IndxIO.save and IndxIO.load are REGENERATED as write / read programs (tools/translate_indx.py: every write with its struct "
+        "width and field, the size formula; every read with its width and offset advance) and proved to be the model's save bytes "
+        "and the model's load on every byte string: generated_writer_produces_layout, generated_reader_accepts_layout, "
+        "generated_save_load_identity, generated_reader_rejects_every_prefix. Trusted: Lean kernel; the translators (width "
+        "tables/magic, fit_dtype, the two programs); the docstring is the spec.",
+        "Lean 4 proof (Layout relation, both directions, on translator-regenerated writer/reader programs) + byte-level correspondence against two independent codecs",
         "DESIGN.md §5 C11"),
     "C12": (
         "Lean 4 theorem: for every file the writer can produce and every cut point k < len, load(prefix k) fails, with the "
@@ -68,8 +79,11 @@ CLAIMED = {
         "dims list, using C08's intersection theorem); no two deliveries share coordinates; the common category is never "
         "presented. Tie: ccube(dims).interactions() vs the model as multisets on exhaustive small cubes and random ones; "
         "oracle = the specification multiset built from the dense columns.",
-        "Trusted: Lean kernel; hand-written walk model tied by correspondence; dict order is outside the property (multiset).",
-        "Lean 4 proof (structural induction over dimensions) + exhaustive small-scope correspondence on interactions()",
+        "ccube._walk is REGENERATED from ccubes.py on every run (tools/translate_walk.py: the sequence of callback invocations) "
+        "and proved equal to the model for all dimensions, prefixes and running row sets (WalkGenBridge.lean): generated_walk_*. "
+        "Trusted: Lean kernel; the translator (the diagnostic counter is skipped; set_intersect_merge_np is the list merge, tied "
+        "to the kernel by C08); dict order is outside the property (multiset).",
+        "Lean 4 proof (translator-regenerated walk = model; structural induction over dimensions) + exhaustive small-scope correspondence on interactions()",
         "DESIGN.md §5 C14"),
     "C02": (
         "Lean 4 theorem: for well-formed, row-aligned one-axis dimensions (any number incl. zero, any commons, explicit or "
@@ -123,8 +137,11 @@ CLAIMED = {
         "the code's counter (partial: that the counter equals the true cell counts is checked by the oracle). Tie: == / != on "
         "families of indexes reached by different histories vs the model; oracle on the real code: count(common) == max "
         "after every library-chosen normalisation, != is the negation of == and never raises.",
-        "Trusted: Lean kernel (+ Batteries list permutations); correspondence for the histories producing the indexes.",
-        "Lean 4 proof (canonicity of equality via the dense abstraction; argmax of the counter) + cross-history correspondence",
+        "iindex.__eq__ / __ne__ are REGENERATED from the source on every run (tools/translate_eq.py) and proved equal to the model "
+        "and its negation: generated_eq_iff_same_content, generated_ne_is_negation (a class without __ne__, or one that is not "
+        "`not __eq__`, does not translate). The counter is exact (Counting.lean), so the chosen value is a most frequent one. "
+        "Trusted: Lean kernel (+ Batteries list permutations); the translator; correspondence for the histories producing the indexes.",
+        "Lean 4 proof (canonicity of the translator-regenerated equality via the dense abstraction; exact counter, argmax) + cross-history correspondence",
         "DESIGN.md §5 C15"),
     "C03": (
         "Lean 4 theorem (exact arithmetic over Q): for every aggregate (count, valid_count, sum, mean), weight form, fact "
